@@ -2,6 +2,7 @@ import GsModel.Props.C15
 import GsModel.Diff.Lift
 import GsModel.Diff.Lift2
 import GsModel.Diff.Lift3
+import GsModel.Diff.Lift4
 /-
   C13 — diff never reports a request-breaking change as compatible.
 
@@ -23,7 +24,8 @@ import GsModel.Diff.Lift3
     for every fuel and iteration order (the analyser only appends: `Mono`; the loops reach every shared parameter:
     `foldlM_reach`).  `param_maxLength_lower_reported`, `param_maximum_lower_reported`: two instances end to end.
   * `removed_endpoint_reported_breaking`, `added_required_param_reported_breaking` — the same lifting for the two structural
-    request-breaking edits: a live endpoint that disappears, a parameter that appears as required.
+    request-breaking edits: a live endpoint that disappears, a parameter that appears as required; `removed_response_reported_breaking`:
+    a response code that disappears (the response side of the statement).
   * `body_root_change_reported_breaking`, `body_property_change_reported_breaking` — the lifting for the request body, at the
     root of an inline (`$ref`-free) schema and for a property both inline object bodies have.
   The lifting for body schemas below that, through `$ref` (where the visited-key guard can skip a comparison) and allOf (through compareSchema, where the visited-key guard can skip a comparison) is decided by the
@@ -418,6 +420,23 @@ example : Outcome.Holds (fun ds => ∃ d ∈ ds, d.compat = Compat.Breaking) (an
     rfl rfl Code.NarrowedType (by decide)
     (detected_maxLength_lower 3 _ _ 10 5 rfl rfl rfl rfl rfl rfl rfl (by decide))
 example : (analyse {} 5 (specBody 10) (specBody 5)).isOk = true := by decide
+
+/-- a response code of an endpoint both documents have that the new document lacks: every report has a Breaking entry -/
+theorem removed_response_reported_breaking (fl : Flags) (n : Nat) (a b : Spec) (um1 um2 : UM) (hum2 : um2 ∈ getURLMethodsFor b)
+    (hf : findUM (getURLMethodsFor a) um2.url um2.method = some um1) (resp1 : Response) (hr1 : resp1 ∈ um1.op.responses)
+    (hgone : findResp um2.op.responses resp1.code = none) (hpos : resp1.code > 0) :
+    Outcome.Holds (fun ds => ∃ d ∈ ds, d.compat = Compat.Breaking) (analyse fl n a b) :=
+  analyse_reports_removed_response fl n a b um1 um2 hum2 hf resp1 hr1 hgone hpos
+
+def opCodes (cs : List Nat) : Operation := { method := "get", responses := cs.map (fun c => { code := c, desc := "ok" }) }
+def specCodes (cs : List Nat) : Spec := { paths := [{ url := "/a", ops := [opCodes cs] }] }
+def umCodes (cs : List Nat) : UM := { url := "/a", method := "get", item := { url := "/a", ops := [opCodes cs] }, op := opCodes cs }
+
+example : Outcome.Holds (fun ds => ∃ d ∈ ds, d.compat = Compat.Breaking) (analyse {} 5 (specCodes [200, 404]) (specCodes [200])) :=
+  removed_response_reported_breaking {} 5 (specCodes [200, 404]) (specCodes [200]) (umCodes [200, 404]) (umCodes [200])
+    (show umCodes [200] ∈ [umCodes [200]] from List.mem_cons_self) rfl { code := 404, desc := "ok" }
+    (show _ ∈ [({ code := 200, desc := "ok" } : Response), { code := 404, desc := "ok" }] from List.mem_cons_of_mem _ List.mem_cons_self) rfl (by decide)
+example : (analyse {} 5 (specCodes [200, 404]) (specCodes [200])).isOk = true := by decide
 
 /-- non-vacuity of the two structural liftings: an endpoint removed, a required parameter added -/
 def specNone : Spec := { paths := [] }
